@@ -27,6 +27,11 @@ def run(cx):
     f = cx.fn('C16.G1', U)
     if f:
         oks = cx.returns(f, r'^Result::Ok\(')
+        # "at most three datagrams": `for _ in 0..3`, or a counter that starts at 0, is only ever incremented by one, is tested `< 3`
+        # at the loop head and is incremented on every path from that test to the receive
+        CNT = r'phi\(0\|addwithoverflow\(rec\(_\d+\),1\)\.0\)'
+        W3 = rf'^ok\(range::next\(Range\(0,3\)\)\)$|^lt\({CNT},3\)$'
+        X3 = rf'^!ok\(range::next\(Range\(0,3\)\)\)$|^le\(3,{CNT}\)$|^!lt\({CNT},3\)$'
         RECV = r'try\(await\(DnsUdpSocket::recv_from\(.*?\)\)@Ready\.0\)@Continue\.0'
         req = {
             'source-ip-canonical-equal': rf'^eq:IpAddr\(IpAddr::to_canonical\(SocketAddr::ip\(SerialMessage::addr\({REQ_BYTES}\)\)\),IpAddr::to_canonical\(SocketAddr::ip\({RECV}\.1\)\)\)$',
@@ -36,7 +41,7 @@ def run(cx):
             # ... all(|e| any(|q| q == e && same case)), or its De Morgan dual !any(|e| !any(..))
             'case-matches-when-randomised': r"^!\^arg1\.case_randomization$|^<Iter<'a;T> as Iterator>::all\(slice::iter\(.*\.queries\),closure:<UdpRequest<P> as Request>::send::\{closure#0\}::\{closure@all#1\}\)$"
                                             r"|^!<Iter<'a;T> as Iterator>::any\(slice::iter\(.*\.queries\),closure:<UdpRequest<P> as Request>::send::\{closure#0\}::\{closure@any#0\}\)$",
-            'within-3-datagrams': r'^ok\(range::next\(Range\(0,3\)\)\)$',
+            'within-3-datagrams': W3,
             'datagram-decoded': r'^ok\(DnsResponse::from_buffer\(',
         }
         cx.guard('C16.G1', oks, req, expect=2, fn=f)
@@ -46,10 +51,15 @@ def run(cx):
             cx.check('C16.G1', ok, f.path, s.key(), 'returns-the-received-datagram', s.term[:120], s.loc)
         # loop: literal bound, recv inside, error after
         rc = cx.calls(f, r'DnsUdpSocket::recv_from$')
-        cx.guard('C16.G1', rc, {'within-3-datagrams': r'^ok\(range::next\(Range\(0,3\)\)\)$'}, expect=1, fn=f)
-        exh = [s for s in cx.returns(f, r'^Result::Err\(') if cx.has_guard(s, r'^!ok\(range::next\(Range\(0,3\)\)\)$')]
+        cx.guard('C16.G1', rc, {'within-3-datagrams': W3}, expect=1, fn=f)
+        heads = [s_ for bb in range(len(f.blocks)) for s_, ps in f.edge_props(bb).items() if any(re.search(rf'^lt\({CNT},3\)$', shorten(p_)) for p_ in ps)]
+        if heads and not cx.calls(f, r'range::next$|Range<\w+> as Iterator>::next$'):
+            incs = [bi for bi, b in enumerate(f.blocks) for st in b['s']
+                    if st[0] == '=' and st[2][0] == 'bin' and st[2][1] == 'AddWithOverflow' and st[2][3][0] == 'k' and st[2][3][1].get('int') == 1]
+            cx.must_pass('C16.G1', f, rc, via_blocks=set(incs), start_blocks=heads, what='counter-incremented-before-each-receive')
+        exh = [s for s in cx.returns(f, r'^Result::Err\(') if cx.has_guard(s, X3)]
         cx.check('C16.G1', len(exh) == 1, f.path, 'ret', 'error-after-3-datagrams', f'{len(exh)} Err returns on loop exhaustion')
-        okex = [s for s in oks if cx.has_guard(s, r'^!ok\(range::next\(')]
+        okex = [s for s in oks if cx.has_guard(s, X3)]
         cx.check('C16.G1', not okex, f.path, 'ret', 'no-accept-after-loop', str(okex))
         # case mismatch is an error, never Ok
         cm = cx.returns(f, r'NetError::QueryCaseMismatch')
@@ -140,15 +150,17 @@ def run(cx):
         cx.check('C16.S1', len(en) == 1, pn.path, 'calls', 'single-entry-lookup', str(len(en)))
         # ---------------------------------------------------------------- P1 close
         ca = cx.calls(pn, r'DnsMultiplexer::stream_closed_close_all$')
-        cx.check('C16.P1', len(ca) == 1, pn.path, 'calls', 'close_all-present', str(len(ca)))
+        # (the failing tail may be written once, or once per arm - stream error / clean end - e.g. through a shared private helper)
+        cx.check('C16.P1', len(ca) >= 1, pn.path, 'calls', 'close_all-present', str(len(ca)))
         dones = [s for s in cx.returns(pn, r'^Poll::Ready\(Option::None\)$')]
         late = [s for s in dones if not cx.has_guard(s, r'^HashMap::is_empty\(arg1\.active_requests\)$')]
         cx.must_pass('C16.P1', pn, late, via_blocks={s.bb for s in ca}, what='close_all-before-reporting-end')
-        cx.check('C16.P1', len(late) == 1 and len(dones) == 2, pn.path, 'ret', 'end-of-stream-returns', f'{len(dones)} Ready(None), {len(late)} with pending requests possible')
+        cx.check('C16.P1', len(late) == len(ca) and len(dones) == len(late) + 1, pn.path, 'ret', 'end-of-stream-returns', f'{len(dones)} Ready(None), {len(late)} with pending requests possible')
         # stream end / error arm reaches close_all: the arm is the Ready(non-Ok) edge
         cx.guard('C16.P1', ca, {'stream-ready': r'^is\(StreamExt::poll_next_unpin\(arg1\.stream,arg2\),Ready\)$'}, fn=pn)
         sh = cx.assigns(pn, r'^true$', place=r'is_shutdown$')
-        cx.check('C16.P1', len(sh) == 1 and bool(ca) and sh[0].bb in cx.reachable_from(pn, [ca[0].bb]), pn.path, 'store', 'shutdown-after-close_all', str(len(sh)))
+        cx.check('C16.P1', len(sh) == len(ca) and bool(ca) and all(any(h.bb in cx.reachable_from(pn, [c_.bb]) for h in sh) for c_ in ca), pn.path, 'store', 'shutdown-after-close_all', str(len(sh)))
+        cx.must_pass('C16.P1', pn, late, via_blocks={h.bb for h in sh}, what='shutdown-marked-before-reporting-end')
     ca_ = cx.fn('C16.P1', M + 'DnsMultiplexer::stream_closed_close_all')
     if ca_:
         dr = cx.calls(ca_, r'HashMap<K, V, S, A>::drain$|HashMap::drain$')
